@@ -1,11 +1,13 @@
 #![allow(unused)]
 
 use crate::sps::syntax::*;
-use std::collections::HashMap;
+use std::collections::BTreeMap;
 use zydeco_statics::surface_syntax::ScopedArena;
 use zydeco_syntax::{BuiltinValueRole, FloatOperation, IntegerOperation};
 
-pub type BuiltinMap = HashMap<String, Builtin>;
+/// Ordered by name: renderers and emitters iterate this table, so its order is part of
+/// their output.
+pub type BuiltinMap = BTreeMap<String, Builtin>;
 
 #[derive(Clone, Debug, thiserror::Error)]
 pub enum BuiltinPackageLowerError {
